@@ -117,6 +117,8 @@ fn conforms(base: &str, flags: &[bool], v: &FieldValue) -> bool {
 }
 
 /// Would a left-to-right check that stops at the first ill-typed element look at an enum leaf?
+/// (Exactly the inputs on which `is_valid_value` hit `unimplemented!` before the repair of F-14; used
+/// to name the failure should that panic ever come back.)
 fn reaches_enum(base: &str, flags: &[bool], v: &FieldValue) -> bool {
     match v {
         FieldValue::Enum(_) => true,
@@ -536,7 +538,8 @@ fn directed_cases() -> Vec<(Vec<(String, TyDesc)>, BTreeMap<String, FieldValue>,
     let m = |kv: Vec<(&str, FieldValue)>| kv.into_iter().map(|(k, v)| (k.to_string(), v)).collect::<BTreeMap<_, _>>();
     let v1 = |n: &str, ty: TyDesc| vec![(n.to_string(), ty)];
     vec![
-        // F-14 and exactly when the traversal reaches the enum
+        // regression streams of F-14 (repaired): enum values where the traversal reaches them
+        // (`enum-value`: panicked, now an ArgumentTypeError) and where it does not
         (v1("x", t("Int", &[true])), m(vec![("x", e())]), "enum-value"),
         (v1("x", t("Int", &[true, false])), m(vec![("x", l(vec![FieldValue::Null, e()]))]), "enum-not-reached"),
         (v1("x", t("Int", &[true, true])), m(vec![("x", l(vec![FieldValue::Null, e()]))]), "enum-value"),
@@ -604,7 +607,7 @@ impl Prop for C12 {
         "C12"
     }
     fn rule(&self) -> &'static str {
-        "Queries: (1) every /repo/trustfall_core/test_data/tests/valid_queries/*.graphql.ron compiled afresh with the real frontend against its schema (numbers, filesystem, nullables, …); those with variables are paired with their own recorded arguments and with generated argument maps; (2) synthetic compiled queries built directly as IRQuery values (one root vertex whose filters use each variable at its type; accepted by IndexedQuery::try_from) with 1..4 variables whose types range over every nullability combination of Int, String, Float, Boolean, Vertex for 0..3 list levels (0..4 thorough) and sparse 28-30 levels, with names incl. empty, non-ASCII and upper/lower-case order traps. Argument-map streams per query: valid, empty map, missing one, extra one, extras only, wrong scalar kind at some nesting level, one list level too many / too few, null at some level, Int64/Uint64 boundaries and floats for Int / ints for Float, enum at some position, enum only under an unused name, all three error kinds at once, and seeded random values to nesting 3. A case is non-trivial (nt:…) when its stream is anything but `valid`/`empty-map` on a query without variables, i.e. when at least one of the three refusal causes or a supplied value's typing decides. Additionally (infer-type (uses t…)): the use types of every variable of every compiled repo query and synthetic same-base/mismatching combinations, answered by the running Type::intersect loop of fill_in_query_variables. ORACLE (independent of the Lean model; its own recursive well-typedness check): accepted ⇔ every variable has a value ∧ no supplied name is unused ∧ every value is well-typed; on refusal the error lists exactly the ill-typed variables (in variable order, with the type's text), then MissingArguments with exactly the missing names, then UnusedArguments with exactly the unused names, a single error as itself and several as MultipleErrors; a panic is a failure (F-14 when an enum value of a variable is reached). For repo queries the variables map recorded by the frontend must equal the running intersection of the recorded use types, and the inferred type must accept a value iff every use type does."
+        "Queries: (1) every /repo/trustfall_core/test_data/tests/valid_queries/*.graphql.ron compiled afresh with the real frontend against its schema (numbers, filesystem, nullables, …); those with variables are paired with their own recorded arguments and with generated argument maps; (2) synthetic compiled queries built directly as IRQuery values (one root vertex whose filters use each variable at its type; accepted by IndexedQuery::try_from) with 1..4 variables whose types range over every nullability combination of Int, String, Float, Boolean, Vertex for 0..3 list levels (0..4 thorough) and sparse 28-30 levels, with names incl. empty, non-ASCII and upper/lower-case order traps. Argument-map streams per query: valid, empty map, missing one, extra one, extras only, wrong scalar kind at some nesting level, one list level too many / too few, null at some level, Int64/Uint64 boundaries and floats for Int / ints for Float, enum at some position, enum only under an unused name, all three error kinds at once, and seeded random values to nesting 3. A case is non-trivial (nt:…) when its stream is anything but `valid`/`empty-map` on a query without variables, i.e. when at least one of the three refusal causes or a supplied value's typing decides. Additionally (infer-type (uses t…)): the use types of every variable of every compiled repo query and synthetic same-base/mismatching combinations, answered by the running Type::intersect loop of fill_in_query_variables. ORACLE (independent of the Lean model; its own recursive well-typedness check): accepted ⇔ every variable has a value ∧ no supplied name is unused ∧ every value is well-typed; on refusal the error lists exactly the ill-typed variables (in variable order, with the type's text), then MissingArguments with exactly the missing names, then UnusedArguments with exactly the unused names, a single error as itself and several as MultipleErrors; a panic is a failure (keyed `enum-argument-panics` when an enum value of a variable is reached: the repaired F-14 — an enum value is an ordinary ArgumentTypeError). For repo queries the variables map recorded by the frontend must equal the running intersection of the recorded use types, and the inferred type must accept a value iff every use type does."
     }
 
     fn generate(&self, tier: Tier, rng: &mut Rng) -> Vec<Case> {
